@@ -224,4 +224,75 @@ theorem reorg_contracts {P A B : List Blk} (h : NoReuse P A) (k : Nat) :
   · exact attachAll_get B k
   · exact h k
 
+theorem replayC_nil_get (C : List Blk) (k : Nat) : cget (replayC C []) k = firstReg (blkTxs C) k := by
+  rw [replayC_get]; rfl
+
+/-- contract half from any table that holds the first registrations of `P ++ A` -/
+theorem reorg_contracts_general {P A B : List Blk} {cdb : CMap}
+    (hc : ∀ k, cget cdb k = firstReg (blkTxs (P ++ A)) k) (h : NoReuse P A) (k : Nat) :
+    cget (saveContracts cdb (contractAttachAll B []) (contractDetachAll (A.reverse.map (·.2)) [])) k =
+      firstReg (blkTxs (P ++ B)) k := by
+  rw [blkTxs_append, firstReg_append]
+  apply saveContracts_reorg
+  · rw [contractAttachAll_eq]; exact contractAttach_nodup _ nodupKeys_nil
+  · rw [contractDetachAll_eq]; exact detachFold_nodup _ nodupKeys_nil
+  · rw [hc, blkTxs_append, firstReg_append]
+  · exact detachAll_get A k
+  · exact attachAll_get B k
+  · exact h k
+
+/-! ### every history of extensions and reorganisations -/
+
+/-- `Reach p kindOf C st`: the node's persisted ledger is `st` and its main chain is `C`, after
+    some history of chain extensions (a reorganisation with `A = []`) and reorganisations
+    (leave branch `A`, adopt branch `B` above the common prefix `P`) that its ledger accepted.
+    The side conditions are facts about the block tree that hold by hashing in the real
+    system: output ids are created once per chain (`WF`), a spending transaction knows the
+    kind of the output it spends (`KindsOK`), a transaction does not occur twice in a chain
+    (`NoReuse`, only needed for contract registrations). -/
+inductive Reach (p : Params) (kindOf : Nat → OutKind) : List Blk → View × CMap → Prop
+  | genesis : Reach p kindOf [] ([], [])
+  | reorg {P A B : List Blk} {st st' : View × CMap} :
+      Reach p kindOf (P ++ A) st →
+      WF (flat (P ++ A)) → WF (flat (P ++ B)) → KindsOK kindOf (flat (P ++ A)) → NoReuse P A →
+      reorgCore p kindOf st.1 st.2 B (A.reverse.map (·.2)) = some st' →
+      Reach p kindOf (P ++ B) st'
+
+structure ReachInv (p : Params) (C : List Blk) (st : View × CMap) : Prop where
+  wf : WF (flat C)
+  replays : ∃ d, replayU p C [] = some d
+  good : Good (flat C) (vget st.1)
+  struct : Struct (flat C)
+  contracts : ∀ k, cget st.2 k = firstReg (blkTxs C) k
+
+theorem reach_inv {p : Params} {kindOf : Nat → OutKind} {C : List Blk} {st : View × CMap}
+    (h : Reach p kindOf C st) : ReachInv p C st := by
+  induction h with
+  | genesis =>
+    refine ⟨by simp [WF, flat, created, NodupKeys, keys], ⟨[], rfl⟩, ?_, by trivial, fun k => rfl⟩
+    simp only [flat, List.flatMap_nil]
+    rw [vget_nil_eq]; exact good_nil
+  | @reorg P A B st st' _ hwA hwB hk hnr hre ih =>
+    obtain ⟨d, hd⟩ := ih.replays
+    rw [replayU_append] at hd
+    cases hP : replayU p P [] with
+    | none => rw [hP] at hd; simp at hd
+    | some dP =>
+      have hgen := reorg_general (B := B) hP ih.good ih.struct hwA hwB hk
+      unfold reorgCore at hre
+      cases hv : reorgView p kindOf st.1 B (A.reverse.map (·.2)) with
+      | none => rw [hv] at hre; simp at hre
+      | some v2 =>
+        rw [hv] at hre hgen
+        simp only [Option.some.injEq] at hre
+        cases hB : replayU p B dP with
+        | none => rw [hB] at hgen; exact False.elim hgen
+        | some dB =>
+          rw [hB] at hgen
+          obtain ⟨g, s, _⟩ := hgen
+          subst hre
+          refine ⟨hwB, ⟨dB, by rw [replayU_append, hP]; exact hB⟩, g, s, ?_⟩
+          intro k
+          exact reorg_contracts_general ih.contracts hnr k
+
 end BytomModel.Lemmas.Ledger
